@@ -11,8 +11,9 @@ from rfbreal import Cfg, run_real
 
 TRUSTED_BASE = ["harness/rfbgen.py: RFC 6143 §7.7 encoders and the reference canvas, written by hand, independent of the client",
                 "Model/Rfb.v decoders hand-written; formats regenerated", "zlib (tape), Pillow frombytes/paste (modelled in Model/Image.v)"]
-ASSUMPTIONS = ["a conforming encoder re-specifies hextile background/foreground after a raw tile and the foreground after a "
-               "coloured-subrects tile (the strict reading where RFC 6143 is silent)",
+ASSUMPTIONS = ["hextile colours are carried over from the last tile as RFC 6143 7.7.4 says, also across raw tiles (half of the generated "
+               "streams rely on it, half re-specify as libvncserver does); a conforming encoder re-specifies the foreground after a "
+               "coloured-subrects tile (the strict reading: the client carries the last subrectangle's colour on instead)",
                "with a local cursor the comparison is on callbacks only (cursor compositing is the option's effect)"]
 EXTRA_VO = ["Proofs/RfbTie.vo"]
 
